@@ -206,7 +206,21 @@ class P(Prop):
             seq = gen.circuit(rng, n_in=(1, 3), n_gates=(1, 5), dead=False, out_inputs=0.2)
             gen.add_flops(rng, seq)
             cyc = gen.circuit(rng, n_in=(1, 3), n_gates=(2, 6), dead=False, cyclic=True)
-            for name, f in [("limit_fanin", lambda: cg.tx.limit_fanin(c, rng.choice([2, 3]))),
+            def compose():
+                """fully connected composition: every child input fed from a parent net, every child output drives a buffer"""
+                child = gen.circuit(rng, n_in=(1, 3), n_gates=(1, 4), dead=False, out_inputs=0.4)
+                p = c.copy()
+                conns = {}
+                nets = sorted(p.graph.nodes)
+                for pin in sorted(child.inputs()):
+                    conns[pin] = rng.choice(nets)
+                for pin in sorted(child.outputs() - child.inputs()):
+                    conns[pin] = p.add(f"zz_from_{pin}", "buf", uid=True, output=True)
+                p.add_subcircuit(child, "zz_u", conns)
+                return p
+
+            for name, f in [("add_subcircuit", compose),
+                            ("limit_fanin", lambda: cg.tx.limit_fanin(c, rng.choice([2, 3]))),
                             ("limit_fanout", lambda: cg.tx.limit_fanout(c, rng.choice([2, 3]))),
                             ("miter", lambda: cg.tx.miter(c)),
                             ("ternary", lambda: cg.tx.ternary(c)[0]),
